@@ -2561,7 +2561,7 @@ func lemmaForwardSession(raw *rawEnvelope) (e *Session, e3 *Session, accepted bo
 //@   ensures t.conn == conn
 
 //@ func (*tcpTransport).Receive :: (t, ctx) (result0, result1)
-//@   props C01 C09 C12 C16
+//@   props C01 C04 C09 C12 C16
 //@   requires tcpInv(t)
 //@   panics only-if ctx == nil
 //@   modifies t.eof, t.limitedReader.N, t.limitedReader.consumed, t.ctxConn.readCtx, t.ctxConn.readCancel
